@@ -336,6 +336,8 @@ def run(ctx):
     rep.assumptions = ['json text layer of CPython round-trips plain trees', 'user objects carry no tag keys (type{…})']
     codec_part(ctx)
     history_part(ctx)
+    from .. import pycorr
+    pycorr.run(ctx)
 
     def search(disagreements):
         rng = ctx.rng('search')
